@@ -4,6 +4,8 @@ CONSTANTS
   KS = {"r_class", "r_attr", "d_ident", "d_str", "d_num", "d_urlq", "media", "fontface", "comment"}
   CS = {"latin1", "astralsym", "private", "quotes2", "backslash", "newline"}
   SH = {"mid"}
+  CT = {}
+  FN = {}
 INVARIANT Generated
 INVARIANT EmitVec
 CHECK_DEADLOCK FALSE
